@@ -145,6 +145,16 @@ CHECKS.update({
             "DESIGN.md section 4, C19"),
 })
 
+CHECKS.update({
+    "C09": ("Hypothesis-generated PatchTrees and deploy rulebooks; three renderings compared (shown text, cmd_paths, driver command list) + reference wrapper table + reference rule matching",
+            "PatchTrees from make_patch and synthetic ones with the special block exits, for every block-structured vendor and hardware "
+            "variant, all four (do_commit, do_finalize) combinations: the displayed patch, the command paths and the body of the command "
+            "list given to the driver must be the same sequence at the same depths; the wrapper must equal the per-hardware reference "
+            "table; generated deploy rulebooks must give each command its rule's timeout and dialog answers. Exploration.",
+            "Trusted: wrapper table and rule-chain matcher in vf/props/c09.py; sibling rows distinct; unmatched intermediate levels not asserted.",
+            "DESIGN.md section 4, C09"),
+})
+
 NOT_YET = {}
 
 
